@@ -191,17 +191,22 @@ def run_inproc(argv, world_json=None, trace=None, plan=None, cwd=None,
             pass
         os.chdir(old_cwd)
         sys.path[:] = old_path
-        for m in list(sys.modules):
+        for m in sorted(sys.modules, reverse=True):
             if m in old_mods:
                 continue
             if purge and m.startswith(tuple(purge)):
                 del sys.modules[m]
             elif purge_under:
                 mod = sys.modules[m]
-                f = getattr(mod, '__file__', None) or ''
-                pp = list(getattr(mod, '__path__', None) or [])
-                if f.startswith(purge_under) or any(
-                        str(x).startswith(purge_under) for x in pp):
+                try:
+                    f = getattr(mod, '__file__', None) or ''
+                    pp = list(getattr(mod, '__path__', None) or [])
+                    under = f.startswith(purge_under) or any(
+                        str(x).startswith(purge_under) for x in pp)
+                except Exception:
+                    # namespace package whose parent is gone already
+                    under = True
+                if under:
                     del sys.modules[m]
         import importlib
         importlib.invalidate_caches()
@@ -233,7 +238,7 @@ class CliResult:
 
 def run_cli(argv, world_json=None, trace=None, plan=None, cwd=None,
             env_extra=None, timeout=120, python=None, markers=None,
-            launcher=None, stdin=None):
+            launcher=None, stdin=None, prefix_cmd=None):
     python = python or VENV_PY
     extra = {'ZTR_WORLD': world_json, 'ZTR_TRACE': trace, 'ZTR_PLAN': plan,
              'ZTR_MARKERS': markers}
@@ -241,7 +246,8 @@ def run_cli(argv, world_json=None, trace=None, plan=None, cwd=None,
     env = base_env(extra, python=python)
     res = CliResult()
     t0 = time.time()
-    p = subprocess.Popen([python, launcher or LAUNCHER] + list(argv),
+    p = subprocess.Popen(list(prefix_cmd or []) +
+                         [python, launcher or LAUNCHER] + list(argv),
                          stdout=subprocess.PIPE, stderr=subprocess.PIPE,
                          stdin=subprocess.PIPE if stdin is None else stdin,
                          cwd=cwd, env=env, start_new_session=True)
